@@ -355,6 +355,14 @@ def host_cases(tier):
                         exp = assignable(tg, rt)
                         out.append(('generic-host|%s|%s|%s(%s)|as %s' % (hname, cname, cname, ' ; '.join(rr(a[1]) for a in args), rr(tg)),
                                     hdr % (n, 'let v: %s = %s;' % (rr(tg), call)), exp, []))
+        # calls through the host's own function-typed values: their parameter type H accepts H only
+        hdr = 'fn hv%%d<%s>(x: %s, s: Sequence<%s>, k: Stack<%s>, f: (%s)->(int))->int{ %%s 0 }' % (hname, hname, hname, hname, hname)
+        for aexpr, at in avail:
+            for form, text in (('param', 'let v = f(%s);' % aexpr), ('lambda', 'let g = (q: %s)->{ q }; let v = g(%s);' % (hname, aexpr)),
+                               ('nested-fn', 'fn g(q: %s)->%s{ q } let v = g(%s);' % (hname, hname, aexpr)),
+                               ('seq-param', 'let g = (q: Sequence<%s>)->{ q }; let v = g([%s]);' % (hname, aexpr))):
+                n += 1
+                out.append(('generic-host|%s|value-call|%s(%s)' % (hname, form, rr(at)), hdr % (n, text), assignable(HOST, at), []))
     return decls, out
 
 
